@@ -4,12 +4,8 @@ from ..props import prop
 # Per-loop bounds for library/constructor loops whose trip count is a constant of the code, not a bound of the check
 # (unwinding assertions stay on for every loop: a label that no longer matches makes the run inconclusive, never a pass):
 #  * memcmp.0            - CBMC's builtin memcmp ([u8;16] handle / [u8;12] prefix / String equality): 16 bytes + exit test,
-#  * StatusMask::from_iter over the 13 StatusKinds in DcpsStatusCondition::default() (every entity constructor),
-#  * u64::overflowing_pow (10^9 constants of the time arithmetic).
+#  * the loops listed in _PATTERNS below.
 # The harness attribute #[kani::unwind(n)] bounds every other loop (entity / proxy / participant lists of <= n-1 elements).
-_FROM_ITER = ("_RINvXs_NtNtCs36Lg0Iv5OGD_8dust_dds4dcps11status_maskNtB5_10StatusMaskINtNtNtNtCs8xvirJzNMvV_4core4iter6traits7collect"
-              "12FromIteratorRNtNtNtB7_14infrastructure6status10StatusKindE9from_iterINtNtNtB1e_5slice4iter4IterB26_EEB9_.0")
-_POW = "_RNvMs7_NtCs8xvirJzNMvV_4core3numy15overflowing_powCs36Lg0Iv5OGD_8dust_dds"
 #  * drop glue of xtypes::type_object::TypeIdentifier (recursive through Box for sequence/array/map identifiers): every
 #    SubscriptionBuiltinTopicData / PublicationBuiltinTopicData / TopicEntity that the code under test drops carries an
 #    Option<TypeInformation>; the harness values hold no type information or the TkNone identifiers of
@@ -17,7 +13,19 @@ _POW = "_RNvMs7_NtCs8xvirJzNMvV_4core3numy15overflowing_powCs36Lg0Iv5OGD_8dust_d
 #    dropped", CHECKED by the recursion unwinding assertion (measured: without it symbolic execution of a single
 #    Vec::remove of a matched-endpoint entry does not finish in 900 s; with it 30 s).
 _DROP_TI = "_RINvNtCs8xvirJzNMvV_4core3ptr9drop_glueNtNtNtCs36Lg0Iv5OGD_8dust_dds6xtypes11type_object14TypeIdentifierEBH_"
-_CBMC = ["--unwindset", "memcmp.0:17,%s:15,%s.0:7,%s.1:7,%s:1" % (_FROM_ITER, _POW, _POW, _DROP_TI)]
+_CBMC = ["--unwindset", "memcmp.0:17,%s:1" % _DROP_TI]
+# Loops bounded by function-name pattern (resolved against the goto binaries of each run by vlib/kani.py):
+_PATTERNS = [
+    (r"StatusMask as std::iter::FromIterator", 14),   # DcpsStatusCondition::default(): 13 status kinds
+    (r"overflowing_pow", 8),                          # 10^9 constants of the time arithmetic
+    (r"slice_contains|SliceContains", 8),             # BUILT_IN_TOPIC_NAME_LIST (6 names)
+    # RtpsReaderProxy::write_message_reliable / _best_effort are entered from on_acknack_submessage_received; the harnesses
+    # of this family keep the writer history empty and send ACKNACKs with an empty bitmap, so none of their loops
+    # (fragments, unsent changes, requested changes) may be entered: bound 1 = "body unreachable", CHECKED by the
+    # unwinding assertion. Without it every iteration of the global bound multiplies the datagram construction sites.
+    (r"write_message_reliable", 1),
+    (r"write_message_best_effort", 1),
+]
 
 prop(
     "C17",
@@ -26,6 +34,7 @@ prop(
     timeout={"quick": 600, "thorough": 1800},
     mem_gb=10,
     cbmc_args=_CBMC,
+    unwind_patterns=_PATTERNS,
 )
 
 prop(
@@ -35,6 +44,7 @@ prop(
     timeout={"quick": 600, "thorough": 1800},
     mem_gb=10,
     cbmc_args=_CBMC,
+    unwind_patterns=_PATTERNS,
 )
 
 prop(
@@ -44,6 +54,7 @@ prop(
     timeout={"quick": 600, "thorough": 1800},
     mem_gb=10,
     cbmc_args=_CBMC,
+    unwind_patterns=_PATTERNS,
 )
 
 prop(
@@ -53,4 +64,5 @@ prop(
     timeout={"quick": 600, "thorough": 1800},
     mem_gb=10,
     cbmc_args=_CBMC,
+    unwind_patterns=_PATTERNS,
 )
